@@ -114,6 +114,25 @@ func NewPacketDslParserByContent(data string) (*gen.PacketDslParser, *antlr.Comm
 	return parser, stream, nil
 }
 
+// ParseAll runs the start rule and collects every lexical and syntactic error. The start rule
+// 'packet' has no EOF, so input left over behind the last definition is reported here as well.
+func ParseAll(parser *gen.PacketDslParser) (gen.IPacketContext, *SyntaxErrorListener) {
+	listener := NewSyntaxErrorListener()
+	parser.RemoveErrorListeners()
+	parser.AddErrorListener(listener)
+	if lexer, ok := parser.GetTokenStream().GetTokenSource().(*gen.PacketDslLexer); ok {
+		lexer.RemoveErrorListeners()
+		lexer.AddErrorListener(listener)
+	}
+	tree := parser.Packet()
+	if !listener.HasErrors() && parser.GetTokenStream().LA(1) != antlr.TokenEOF {
+		tok := parser.GetTokenStream().LT(1)
+		listener.SyntaxError(parser, tok, tok.GetLine(), tok.GetColumn(),
+			"unexpected input '"+tok.GetText()+"', expected a packet, MetaData or options definition", nil)
+	}
+	return tree, listener
+}
+
 // RenderToString render tmpl
 func RenderToString(tmpl string, lang string, data interface{}) (string, error) {
 	t := template.Must(template.New(lang).Parse(tmpl))
